@@ -244,6 +244,8 @@ class NetworkGraph(AbstractBaseIR):
                                                       buffer_id=f"_out{i}")
                         else:
                             for i, (edge, delay, node) in enumerate(zip(scalar_edges, delays, nodes)):
+                                if not delay:
+                                    continue  # undelayed edge: keeps reading the source variable itself
                                 self._add_edge_buffer(node_name, op_name, var_name, edges=[edge], delays=[delay],
                                                       nodes=[node], dde_approx=dde_approx, buffer_id=f"_out{i}")
 
@@ -334,7 +336,7 @@ class NetworkGraph(AbstractBaseIR):
 
             # finalize edge delay
             if d is None or np.sum(d) == 0:
-                d = [1] * n_slots
+                d = [0] * n_slots
             else:
                 d = self._process_delays(d, discretize=discretize)
 
@@ -671,7 +673,7 @@ class NetworkGraph(AbstractBaseIR):
 
             buffer_eqs = []
             for i, (d, sidx) in enumerate(zip(delays, source_idx)):
-                var_delayed = f"past({var}, {d})" if np.issubdtype(np.asarray(d).dtype, np.floating) or d != 1 else var
+                var_delayed = f"past({var}, {d})" if np.issubdtype(np.asarray(d).dtype, np.floating) or d > 1 else var
                 if len(target_shape) < 1 or (len(target_shape) == 1 and target_shape[0] == 1):
                     buffer_eqs.append(f"{var}_buffered{buffer_id} = {var_delayed}")
                 else:
